@@ -519,11 +519,20 @@ func c04OtherLimits(w *fw.W, idx int) {
 			cx, stop = c, func() { timer.Stop(); cancel() }
 		}
 		r6 := rt.New(rt.Opts{})
-		t6 := r6.RunCtx(cx, "sleep", `(time:sleep (time:parse-duration "2s"))`)
+		t0 := time.Now()
+		t6 := r6.RunCtx(cx, "sleep", `(time:sleep (time:parse-duration "30s"))`)
+		el6 := time.Since(t0)
 		stop()
 		w.Eval(1)
 		if !t6.IsErr || t6.Cond != "context-cancelled" {
-			w.Violation("sleep-not-cancelled:"+variant, "a pending time:sleep of 2s whose context was cancelled after 30ms returned "+t6.Outcome()+" "+t6.Msg, "")
+			w.Violation("sleep-not-cancelled:"+variant, "a pending time:sleep of 30s whose context was cancelled after 30ms returned "+t6.Outcome()+" "+t6.Msg, "")
+			return
+		}
+		// the sleep must END at the cancellation, not run its course and report the
+		// cancellation afterwards (half the requested time is a very generous bound
+		// for a wake-up that is due after 30 ms)
+		if el6 > 15*time.Second {
+			w.Violation("sleep-not-interrupted:"+variant, fmt.Sprintf("a pending time:sleep of 30s whose context was cancelled after 30ms blocked for %v", el6.Round(time.Millisecond)), "")
 			return
 		}
 		w.CoverKey("sleep-cancel|" + variant)
